@@ -146,7 +146,10 @@ M_FORMS = {'int': int, 'float': float, 'np.int64': np.int64, 'np.int32': np.int3
 RET_FORMS = {'array': lambda y: y, 'list': lambda y: [float(v) for v in y], 'tuple': lambda y: tuple(float(v) for v in y),
              'float32': lambda y: y.astype(np.float32), 'int': lambda y: y.astype(np.int64),
              'col': lambda y: y.reshape(-1, 1)}
-CB_FORMS = {'True': lambda b: bool(b), '1': lambda b: 1 if b else 0, 'np.bool_': lambda b: np.bool_(b)}
+# what the callback returns for "stop" / "go on": the driver must go by truthiness ("If the callback returns a true value")
+CB_FORMS = {'True': lambda b: bool(b), '1': lambda b: 1 if b else 0, 'np.bool_': lambda b: np.bool_(b),
+            'obj': lambda b: [0] if b else None, 'str': lambda b: 'stop' if b else '',
+            'np.float64': lambda b: np.float64(2.5) if b else np.float64(0.0)}
 
 
 def run_impl(tn, cfg, objective=None, Y0=None, max_calls=4000, max_requests=6000, max_seconds=60.0, shared=None):
@@ -220,11 +223,13 @@ def run_impl(tn, cfg, objective=None, Y0=None, max_calls=4000, max_requests=6000
         return y
 
     kcb = cfg.get('kcb')
-    cbrec = []
+    cbrec, cbans = [], []
 
     def cb(Y, info, opts):
         cbrec.append(info['nswp'])
-        return CB_FORMS[fm.get('cb', 'True')](info['nswp'] == kcb)
+        ans = CB_FORMS[fm.get('cb', 'True')](info['nswp'] == kcb)
+        cbans.append(bool(ans))          # the model's callback is the truthiness of the answer
+        return ans
 
     info_omitted = fm.get('info') == 'omitted'
     if info_omitted:
@@ -264,7 +269,7 @@ def run_impl(tn, cfg, objective=None, Y0=None, max_calls=4000, max_requests=6000
         kw['info'] = info
     if cache is not None or fm.get('cache') != 'omitted':
         kw['cache'] = cache
-    out = dict(rec=rec, info=info, cache=cache, cache0=cache0, Y0=Y0, cbrec=cbrec, I_vld=I_vld, y_vld=y_vld)
+    out = dict(rec=rec, info=info, cache=cache, cache0=cache0, Y0=Y0, cbrec=cbrec, cbans=cbans, I_vld=I_vld, y_vld=y_vld)
     tn._maxvol, tn.erank, tn.accuracy, tn.accuracy_on_data = w_maxvol, w_erank, w_acc, w_ad
     cr._func_eval = w_fe
     try:
